@@ -185,7 +185,6 @@ Section GenTransparent.
      generator raises (guard of the finding C04-exhausted-generator) *)
   Hypothesis yields_ok : forall h y, body h = GYield y -> g_accepts yt y.
   Hypothesis returns_ok : forall h r, body h = GReturn r -> g_accepts rt r.
-  Hypothesis none_ok : g_accepts rt VNone.
 
   Definition res_of (i : ires) : wres :=
     match i with IYield y => WValue y | IStop r => WStop r | IRaise e => WRaise e | INone => WNone end.
@@ -216,25 +215,26 @@ Section GenTransparent.
     intros g r i g' H. unfold react in H. destruct (body (g_hist g ++ [r])) eqn:E; inversion H; subst; eauto.
   Qed.
 
-  Lemma inner_send_event : forall g v i g', inner_send body g v = (i, g') ->
+  Lemma inner_send_event : forall g v i g', (g_done g = false \/ g_accepts rt VNone) -> inner_send body g v = (i, g') ->
     match i with
     | IYield y => g_accepts yt y
     | IStop r => g_accepts rt r
     | _ => True
     end.
   Proof.
-    intros g v i g' H. unfold inner_send in H.
-    destruct (g_done g); [inversion H; subst; exact none_ok|].
+    intros g v i g' Hlive H. unfold inner_send in H.
+    destruct (g_done g); [inversion H; subst; destruct Hlive as [E|Hn]; [discriminate|exact Hn]|].
     destruct (negb (g_started g) && negb (is_none v)); [inversion H; subst; exact I|].
     pose proof (react_event _ _ _ _ H) as He. destruct i; try exact I; destruct He as [h Hh]; eauto.
   Qed.
 
   Lemma w_send_transparent : forall w v, (w_init w = true -> g_accepts st_ v) ->
+    (g_done (w_inner w) = false \/ g_accepts rt VNone) ->
     let (i, g') := inner_send body (w_inner w) v in
     exists w', w_send check yt st_ rt body w v = (res_of i, w') /\ w_inner w' = g'.
   Proof.
-    intros w v Hv. destruct (inner_send body (w_inner w) v) as [i g'] eqn:Ei.
-    pose proof (inner_send_event _ _ _ _ Ei) as Hev. unfold w_send. rewrite Ei.
+    intros w v Hv Hlive. destruct (inner_send body (w_inner w) v) as [i g'] eqn:Ei.
+    pose proof (inner_send_event _ _ _ _ Hlive Ei) as Hev. unfold w_send. rewrite Ei.
     assert (Hpre : exists tv1, (if w_init w then match check st_ v (w_tv w) with (Ok _, tv') => Ok tv' | (Raise e, _) => Raise e end else Ok (w_tv w)) = Ok tv1).
     { destruct (w_init w); [|eauto]. specialize (Hv eq_refl (w_tv w)). destruct (check st_ v (w_tv w)) as [[u|e] tv']; simpl in Hv; [eauto|discriminate]. }
     destruct Hpre as [tv1 ->].
@@ -251,13 +251,36 @@ Section GenTransparent.
     destruct (react body g (RThrow GeneratorExitC)) as [[y|v|e|] g1]; [| |destruct (derives e GeneratorExitC)|]; inversion H; subst; exact I.
   Qed.
 
-  Lemma w_step_transparent : forall w o, op_ok o ->
+  (* a next() / send() finds the generator still running (it has not returned, raised or been closed) - or the return type
+     accepts the None of the StopIteration a finished generator answers with *)
+  Definition step_fine (g : gstate) (o : gop) : Prop :=
+    match o with OpNext | OpSend _ => g_done g = false \/ g_accepts rt VNone | _ => True end.
+  Fixpoint run_fine (g : gstate) (ops : list gop) : Prop :=
+    match ops with
+    | [] => True
+    | o :: ops' => step_fine g o /\ run_fine (snd (twin_step g o)) ops'
+    end.
+  Lemma run_fine_none : g_accepts rt VNone -> forall ops g, run_fine g ops.
+  Proof. intros Hn. induction ops as [|o ops IH]; intros g; simpl; [exact I|]. split; [destruct o; simpl; auto|apply IH]. Qed.
+
+  (* the structural half alone: no next() / send() after the generator has finished *)
+  Fixpoint live_run (g : gstate) (ops : list gop) : Prop :=
+    match ops with
+    | [] => True
+    | o :: ops' => match o with OpNext | OpSend _ => g_done g = false | _ => True end /\ live_run (snd (twin_step g o)) ops'
+    end.
+  Lemma live_run_fine : forall ops g, live_run g ops -> run_fine g ops.
+  Proof.
+    induction ops as [|o ops IH]; intros g H; [exact I|]. destruct H as [H1 H2]. split; [destruct o; simpl; auto|now apply IH].
+  Qed.
+
+  Lemma w_step_transparent : forall w o, op_ok o -> step_fine (w_inner w) o ->
     let (i, g') := twin_step (w_inner w) o in
     exists w', w_step check yt st_ rt body w o = (res_of i, w') /\ w_inner w' = g'.
   Proof.
-    intros w o Ho. destruct o as [|v|e|]; simpl in *.
-    - unfold w_next. apply (w_send_transparent (w_uninit w) VNone). intros E. discriminate.
-    - exact (w_send_transparent w v (fun _ => Ho)).
+    intros w o Ho Hf. destruct o as [|v|e|]; simpl in *.
+    - unfold w_next. apply (w_send_transparent (w_uninit w) VNone); [intros E; discriminate|exact Hf].
+    - exact (w_send_transparent w v (fun _ => Ho) Hf).
     - unfold w_throw. destruct (inner_throw body (w_inner w) e) as [[y|r|e'|] g']; simpl; eauto.
     - unfold w_close. destruct (inner_close body (w_inner w)) as [i g'] eqn:Ec.
       pose proof (inner_close_shape _ _ _ Ec) as Hs. destruct i; try contradiction; simpl; eauto.
@@ -266,14 +289,14 @@ Section GenTransparent.
   (* C04, generators: under these hypotheses the caller of the wrapper observes exactly what the caller of the
      undecorated generator observes - for every sequence of next / send / throw / close *)
   Theorem gen_transparent : forall ops w,
-    Forall op_ok ops ->
+    Forall op_ok ops -> run_fine (w_inner w) ops ->
     fst (w_run check yt st_ rt body w ops) = map res_of (fst (twin_run (w_inner w) ops))
     /\ w_inner (snd (w_run check yt st_ rt body w ops)) = snd (twin_run (w_inner w) ops).
   Proof.
-    induction ops as [|o ops IH]; intros w Hok; [split; reflexivity|].
-    inversion Hok as [|? ? Ho Hrest]; subst. simpl.
-    pose proof (w_step_transparent w o Ho) as Hs. destruct (twin_step (w_inner w) o) as [i g'].
-    destruct Hs as [w1 [E1 Eg]]. rewrite E1. specialize (IH w1 Hrest). rewrite Eg in IH.
+    induction ops as [|o ops IH]; intros w Hok Hfine; [split; reflexivity|].
+    inversion Hok as [|? ? Ho Hrest]; subst. simpl. destruct Hfine as [Hf Hfr].
+    pose proof (w_step_transparent w o Ho Hf) as Hs. destruct (twin_step (w_inner w) o) as [i g'].
+    destruct Hs as [w1 [E1 Eg]]. rewrite E1. simpl in Hfr. rewrite <- Eg in Hfr. specialize (IH w1 Hrest Hfr). rewrite Eg in IH.
     destruct (w_run check yt st_ rt body w1 ops) as [rs w2]. destruct (twin_run g' ops) as [is g2]. simpl in *.
     destruct IH as [IH1 IH2]. split; [now rewrite IH1|assumption].
   Qed.
